@@ -620,6 +620,63 @@ fn exec_e<B: Fld, E: Ext<B>>(raw: bool, t: &[&str]) -> Outcome {
             }
             o
         },
+        "bytes" => {
+            // bytes_as_elements on a byte slice at offset `off` of a 16-byte aligned buffer (misaligned slices,
+            // lengths that are not a whole number of elements)
+            if rest.len() != 2 {
+                return Outcome::ok("bad-op");
+            }
+            let Some(off) = rest[0].parse::<usize>().ok().filter(|o| *o < 64) else { return Outcome::ok("bad-op") };
+            let data = unhex(rest[1]);
+            let mut buf: Vec<u128> = vec![0u128; (off + data.len()) / 16 + 2];
+            let base = buf.as_mut_ptr() as *mut u8;
+            if (base as usize) % 16 != 0 {
+                return Outcome::ok("-");
+            }
+            let all: &mut [u8] = unsafe { std::slice::from_raw_parts_mut(base, buf.len() * 16) };
+            all[off..off + data.len()].copy_from_slice(&data);
+            let sl: &[u8] = &all[off..off + data.len()];
+            let nb = <B as FieldElement>::ELEMENT_BYTES;
+            let should = data.len() % E::ELEMENT_BYTES == 0 && off % nb == 0;
+            match unsafe { E::bytes_as_elements(sl) } {
+                Ok(es) => {
+                    let back = E::elements_as_bytes(es);
+                    let mut o = Outcome::ok(format!("ok {} {}", es.len(), hex(back)));
+                    if !should {
+                        o = o.fail(
+                            format!("{}.bytes.accept", E::TAG),
+                            format!("accepted {} bytes at offset {} (element {} bytes, base alignment {})", data.len(), off, E::ELEMENT_BYTES, nb),
+                        );
+                    }
+                    if es.len() * E::ELEMENT_BYTES != data.len() || back != data.as_slice() {
+                        o = o.fail(format!("{}.bytes.value", E::TAG), "elements do not cover exactly the given bytes");
+                    }
+                    // raw words of every coordinate are the little-endian words of the bytes
+                    if should && B::NAME != "f128" {
+                        for (k, e) in es.iter().enumerate() {
+                            for (j, c) in e.co().iter().enumerate() {
+                                let at = (k * n + j) * nb;
+                                let mut w: u128 = 0;
+                                for i in 0..nb {
+                                    w |= (data[at + i] as u128) << (8 * i);
+                                }
+                                if c.raw_word() != w {
+                                    o = o.fail(format!("{}.bytes.word", E::TAG), format!("coordinate {} of element {}", j, k));
+                                }
+                            }
+                        }
+                    }
+                    o
+                },
+                Err(_) => {
+                    let mut o = Outcome::ok("err");
+                    if should {
+                        o = o.fail(format!("{}.bytes.reject", E::TAG), "rejected an aligned whole number of elements");
+                    }
+                    o
+                },
+            }
+        },
         "flat" => {
             // slice reinterpretation: base elements -> extension elements -> base elements / bytes -> elements
             let nums: Option<Vec<u128>> = rest.iter().filter(|s| **s != "-").map(|s| s.parse::<u128>().ok()).collect();
@@ -774,6 +831,12 @@ fn exec_e<B: Fld, E: Ext<B>>(raw: bool, t: &[&str]) -> Outcome {
             ));
             if vals(&E::ZERO) != oc.zero() || vals(&E::ONE) != oc.one() {
                 o = o.fail(format!("{}.const", E::TAG), "ZERO / ONE");
+            }
+            if E::default() != E::ZERO || <E as Randomizable>::VALUE_SIZE != E::ELEMENT_BYTES || E::IS_CANONICAL != <B as FieldElement>::IS_CANONICAL {
+                o = o.fail(format!("{}.const", E::TAG), "Default / VALUE_SIZE / IS_CANONICAL");
+            }
+            if E::ONE.exp_vartime(<E as FieldElement>::PositiveInteger::from(5u32)) != E::ONE || E::ONE.double() != E::ONE + E::ONE {
+                o = o.fail(format!("{}.const", E::TAG), "exp_vartime / double on ONE");
             }
             if E::EXTENSION_DEGREE != n || E::ELEMENT_BYTES != n * <B as FieldElement>::ELEMENT_BYTES || !E::supported() {
                 o = o.fail(format!("{}.const", E::TAG), "degree / size / is_supported");
@@ -1102,6 +1165,125 @@ fn gen_e<B: Fld, E: Ext<B>>(rng: &mut Rng, tier: Tier, n_rand: usize, emit: &mut
         }
     }
 
+
+    // structured operands computed by the oracle: embedded base elements, pure phi / phi^2 multiples, an element with
+    // its conjugate(s) and inverse, elements of norm 1 (x / conj x) and -1, roots of unity of the base field embedded
+    // and (quadratic) of the extension
+    let oc = orc::<B, E>();
+    let mut st: Vec<Vec<u128>> = vec![oc.zero(), oc.one()];
+    {
+        let unit = |pos: usize, v: u128| -> Vec<u128> {
+            let mut e = vec![0u128; n];
+            e[pos] = v % m;
+            e
+        };
+        for v in [1u128, 2, m - 1, m - 2, (m + 1) / 2, rnd(rng) % m] {
+            for pos in 0..n {
+                st.push(unit(pos, v));
+            }
+        }
+        let two_adicity = (m - 1).trailing_zeros();
+        let omega = powmod(B::GENERATOR.canon(), (m - 1) >> two_adicity, m); // 2^a-th root of unity of the base field
+        st.push(unit(0, omega));
+        st.push(unit(0, powmod(omega, 1 << (two_adicity - 1), m))); // -1
+        st.push(unit(0, powmod(omega, 1 << (two_adicity - 2), m))); // sqrt(-1)
+        for _ in 0..(if heavy_scale == 1 { 3 } else { 1 }) {
+            let x: Vec<u128> = (0..n).map(|_| 1 + rnd(rng) % (m - 1)).collect();
+            let c1 = oc.pow(&x, m);
+            let (others, norm) = if n == 2 {
+                (c1.clone(), oc.mul(&x, &c1))
+            } else {
+                let c2 = oc.pow(&c1, m);
+                let num = oc.mul(&c1, &c2);
+                (num.clone(), oc.mul(&x, &num))
+            };
+            let ninv = invmod(norm[0], m);
+            let xinv: Vec<u128> = others.iter().map(|c| mulmod(*c, ninv, m)).collect();
+            let c1inv_norm = {
+                // norm-1 element x / conj(x)
+                let n1 = oc.pow(&xinv, m); // conj(x^-1) = (conj x)^-1
+                oc.mul(&x, &n1)
+            };
+            st.push(x.clone());
+            st.push(c1.clone());
+            st.push(xinv);
+            st.push(c1inv_norm.clone());
+            st.push(oc.neg(&c1inv_norm)); // cubic: norm -1
+            if n == 2 {
+                // element of 2-power order 2^(a+1) of the quadratic extension: (x^((p-1)/2^a))^((p+1)/2)
+                let y = oc.pow(&oc.pow(&x, (m - 1) >> two_adicity), (m + 1) / 2);
+                st.push(y);
+            } else {
+                // element of order dividing p^2+p+1: x^(p-1) = conj(x)/x
+                st.push(oc.mul(&c1, &st[st.len() - 3].clone()));
+            }
+        }
+        let hs = heavy_scale as usize;
+        for (i, a) in st.iter().enumerate() {
+            for op in ["sq", "inv", "conj", "frob", "neg", "dbl", "ser"] {
+                emit(format!("{} {} {}", tag, op, join(a)));
+            }
+            emit(format!("{} mul {} {}", tag, join(a), join(a)));
+            emit(format!("{} div {} {}", tag, join(a), join(a)));
+            emit(format!("{} seq {} {} sub inv", tag, join(a), join(a)));
+            emit(format!("{} seq {} {} sub conj", tag, join(a), join(a)));
+            emit(format!("{} seq {} {} sub swap div", tag, join(a), join(a)));
+            emit(format!("{} mulbase {} {}", tag, join(a), st[(i + 3) % st.len()][0]));
+            for (j, b) in st.iter().enumerate() {
+                emit(format!("{} mul {} {}", tag, join(a), join(b)));
+                if (i + j) % (2 * hs) == 0 {
+                    emit(format!("{} div {} {}", tag, join(a), join(b)));
+                }
+                if (i + 2 * j) % (5 * hs) == 0 {
+                    emit(format!("{} aut {} {}", tag, join(a), join(b)));
+                }
+                if (i + 3 * j) % 7 == 0 {
+                    emit(format!("{} add {} {}", tag, join(a), join(b)));
+                    emit(format!("{} sub {} {}", tag, join(a), join(b)));
+                }
+            }
+        }
+        // exponents 2^k, 2^k - 1, 2^k + 1 for every k, on structured and random bases
+        let ebits = E::exp_bits();
+        let nbases = if hs == 1 { 3 } else { 1 };
+        for k in 0..ebits {
+            let p2: u128 = 1u128 << k;
+            for e in [p2, p2 - 1, p2.wrapping_add(1)] {
+                if ebits == 64 && e > u64::MAX as u128 {
+                    continue;
+                }
+                for bi in 0..nbases {
+                    let base = match bi {
+                        0 => (0..n).map(|_| rnd(rng)).collect::<Vec<u128>>(),
+                        1 => st[2 + (k as usize) % (st.len() - 2)].clone(),
+                        _ => {
+                            let mut e = vec![0u128; n];
+                            e[1] = 1; // phi
+                            e
+                        },
+                    };
+                    emit(format!("{} exp {} {}", tag, join(&base), e));
+                }
+            }
+        }
+    }
+    // bytes_as_elements: every offset (alignment) and lengths around whole numbers of elements
+    {
+        let eb = E::ELEMENT_BYTES;
+        let bb = <B as FieldElement>::ELEMENT_BYTES;
+        for off in 0..=(2 * bb + 1) {
+            for len in [0usize, bb, eb - 1, eb, eb + 1, eb + bb, 2 * eb, 3 * eb, 3 * eb - bb] {
+                let mut data = rng.bytes(len);
+                if rng.chance(1, 3) {
+                    for b in data.iter_mut() {
+                        *b = 0xff;
+                    }
+                }
+                emit(format!("{} bytes {} {}", tag, off, hex(&data)));
+            }
+        }
+    }
+
     // exponents
     let exps: Vec<u128> = {
         let mut v = vec![0u128, 1, 2, 3, 4, 7, 8, 255, 256, m - 1, m, m + 1, m - 2];
@@ -1340,7 +1522,7 @@ impl Prop for P {
          boundary set (0,1,2,p-1,p-2,(p±1)/2,2^32,…) over both operands of mul; every boundary word of the base field (residues, and raw \
          internal words incl. non-normalised ones of the 62-bit field) in every coordinate position for every operation; operands whose \
          partial products / partial sums a_i*b_j, a_i+a_j equal boundary values; boundary exponents; boundary/malformed byte strings; \
-         slice reinterpretation of lists of every small length; operation sequences (neg/sub/add of small-integer grids, boundary and random elements followed by conj/frob/inv/div/mul_base/square, judged at every step); raw-word grids around 0, M, 2M and random upper-half words for the 62-bit extensions; seeded random operands and operation sequences. A case is non-trivial \
+         slice reinterpretation of lists of every small length; operation sequences (neg/sub/add of small-integer grids, boundary and random elements followed by conj/frob/inv/div/mul_base/square, judged at every step); raw-word grids around 0, M, 2M and random upper-half words for the 62-bit extensions; structured operands (embedded base elements, pure phi/phi^2, x with conjugates and inverse, norm +-1 elements, roots of unity) in full product; exponents 2^k, 2^k+-1 for every k; bytes_as_elements at every alignment offset and lengths around whole elements; seeded random operands and operation sequences. A case is non-trivial \
          when it is distinct (hash of the op line); outputs are canonical integers and raw words of every coordinate"
     }
 }
